@@ -253,6 +253,16 @@ func (c *Config) SetString(name string, idx int, value string, opts ...Option) e
 //
 // SetChild supports the options: PathSep, MetaData
 func (c *Config) SetChild(name string, idx int, value *Config, opts ...Option) error {
+	if value == nil {
+		return raiseNil(ErrNilValue)
+	}
+	// a config can not become a setting of itself or of a config below itself:
+	// the tree would contain itself
+	for p := c; p != nil; p = p.Parent() {
+		if p == value {
+			return raiseCyclicErr(name)
+		}
+	}
 	return c.setField(name, idx, cfgSub{c: value}, opts)
 }
 
